@@ -201,6 +201,15 @@ impl Params {
         Ok(())
     }
 
+    #[cfg(nervusdb_verif)]
+    pub fn verif_emitted_rows(&self) -> usize {
+        self.runtime
+            .state
+            .lock()
+            .map(|s| s.emitted_rows)
+            .unwrap_or(usize::MAX)
+    }
+
     pub(crate) fn note_emitted_row(&self, stage: &str) -> Result<()> {
         let observed = {
             let mut state = self
